@@ -4,6 +4,8 @@ import (
 	"fmt"
 	"strings"
 
+	validate "buf.build/gen/go/bufbuild/protovalidate/protocolbuffers/go/buf/validate"
+
 	"verif/internal/spec"
 )
 
@@ -210,4 +212,84 @@ func SharedRequestFile(pkg, goName string) *spec.File {
 		}},
 	}
 	return f
+}
+
+// TwinPackages: two files of DIFFERENT proto packages (and Go packages) generated in one
+// invocation that declare messages, enums and RPCs with the same short names but different
+// fields, annotations, validation rules, verbs and paths. Whatever a generator keeps between the
+// files of a run (caches keyed by a short name, tables built from every file to generate) must not
+// let one package's declarations show in the other's output.
+func TwinPackages(pkgPrefix, goPrefix string) []*spec.File {
+	mk := func(tag string, b bool) *spec.File {
+		pkg := pkgPrefix + "." + tag
+		goName := goPrefix + tag
+		f := &spec.File{Path: "twins/" + goName + "/catalog.proto", Package: pkg, GoImport: "lab/gen/" + goName, GoName: goName}
+		in := func(m string) string { return "." + pkg + "." + m }
+		strRule := func(minLen, maxLen uint64) *validate.FieldRules {
+			return &validate.FieldRules{Type: &validate.FieldRules_String_{String_: &validate.StringRules{MinLen: &minLen, MaxLen: &maxLen}}}
+		}
+		i32Rule := func(gte, lte int32) *validate.FieldRules {
+			return &validate.FieldRules{Type: &validate.FieldRules_Int32{Int32: &validate.Int32Rules{GreaterThan: &validate.Int32Rules_Gte{Gte: gte}, LessThan: &validate.Int32Rules_Lte{Lte: lte}}}}
+		}
+		req := true
+		status := &spec.EnumDef{Name: "Status", Values: []spec.EnumValue{{Name: "STATUS_UNSPECIFIED", Num: 0}, {Name: "STATUS_ACTIVE", Num: 1}}}
+		var item, create, list *spec.Message
+		if !b {
+			item = &spec.Message{Name: "Item", Fields: []*spec.Field{
+				spec.F("item_id", 1, spec.String),
+				spec.F("name", 2, spec.String).With(func(a *spec.Ann) { a.Rules = strRule(1, 40) }),
+				spec.F("quantity", 3, spec.Int32).With(func(a *spec.Ann) { a.Rules = i32Rule(0, 1000) }),
+				spec.F("weight_grams", 4, spec.Int64).With(func(a *spec.Ann) { a.Int64Enc = 2 }),
+				spec.FE("status", 5, in("Status")),
+			}}
+			create = &spec.Message{Name: "CreateItemRequest", Fields: []*spec.Field{
+				spec.F("name", 1, spec.String).With(func(a *spec.Ann) { a.Rules = strRule(1, 40); a.Rules.Required = &req }),
+				spec.F("quantity", 2, spec.Int32).With(func(a *spec.Ann) { a.Rules = i32Rule(0, 1000) }),
+				spec.F("note", 3, spec.String).Opt(),
+			}}
+			list = &spec.Message{Name: "ListItemsResponse", Fields: []*spec.Field{spec.FM("items", 1, in("Item")).Rep(), spec.F("next_cursor", 2, spec.String)}}
+		} else {
+			status.Values = []spec.EnumValue{{Name: "STATUS_UNSPECIFIED", Num: 0}, {Name: "STATUS_LISTED", Num: 1, JSON: spec.S("listed")}, {Name: "STATUS_HIDDEN", Num: 2, JSON: spec.S("hidden")}}
+			item = &spec.Message{Name: "Item", Fields: []*spec.Field{
+				spec.F("sku", 1, spec.String).With(func(a *spec.Ann) { a.Rules = strRule(8, 8) }),
+				spec.F("name", 2, spec.String).With(func(a *spec.Ann) { a.Rules = strRule(3, 12) }),
+				spec.F("quantity", 3, spec.Int32).With(func(a *spec.Ann) { a.Rules = i32Rule(1, 10) }),
+				spec.F("price_cents", 4, spec.Int64),
+				spec.FE("status", 5, in("Status")),
+				spec.F("thumbnail", 6, spec.Bytes).With(func(a *spec.Ann) { a.BytesEnc = 5 }),
+			}}
+			create = &spec.Message{Name: "CreateItemRequest", Fields: []*spec.Field{
+				spec.F("sku", 1, spec.String).With(func(a *spec.Ann) { a.Rules = strRule(8, 8); a.Rules.Required = &req }),
+				spec.F("name", 2, spec.String).With(func(a *spec.Ann) { a.Rules = strRule(3, 12) }),
+				spec.F("quantity", 3, spec.Int32).With(func(a *spec.Ann) { a.Rules = i32Rule(1, 10); a.Rules.Required = &req }),
+			}}
+			list = &spec.Message{Name: "ListItemsResponse", Fields: []*spec.Field{spec.FM("items", 1, in("Item")).Rep().With(func(a *spec.Ann) { a.Unwrap = true })}}
+		}
+		get := &spec.Message{Name: "GetItemRequest"}
+		lst := &spec.Message{Name: "ListItemsRequest"}
+		if !b {
+			get.Fields = []*spec.Field{spec.F("item_id", 1, spec.String)}
+			lst.Fields = []*spec.Field{spec.F("cursor", 1, spec.String).Q("cursor"), spec.F("limit", 2, spec.Int32).Q("limit")}
+		} else {
+			get.Fields = []*spec.Field{spec.F("sku", 1, spec.String), spec.F("currency", 2, spec.String).QReq("currency")}
+			lst.Fields = []*spec.Field{spec.F("category", 1, spec.String), spec.F("page", 2, spec.Int64).Q("page")}
+		}
+		f.Enums = []*spec.EnumDef{status}
+		f.Messages = []*spec.Message{item, create, list, get, lst}
+		if !b {
+			f.Services = []*spec.Service{{Name: "InventoryService", BasePath: spec.S("/inventory/v1"), Headers: []spec.Header{{Name: "X-Tenant", Type: "string", Required: true}}, Methods: []*spec.Method{
+				{Name: "CreateItem", In: in("CreateItemRequest"), Out: in("Item"), HTTP: &spec.HTTP{Path: "/items", Verb: 2}},
+				{Name: "GetItem", In: in("GetItemRequest"), Out: in("Item"), HTTP: &spec.HTTP{Path: "/items/{item_id}", Verb: 1}},
+				{Name: "ListItems", In: in("ListItemsRequest"), Out: in("ListItemsResponse"), HTTP: &spec.HTTP{Path: "/items", Verb: 1}},
+			}}}
+		} else {
+			f.Services = []*spec.Service{{Name: "StorefrontService", BasePath: spec.S("/shop"), Headers: []spec.Header{{Name: "X-Tenant", Type: "integer", Required: false}, {Name: "X-Channel", Type: "string", Required: true}}, Methods: []*spec.Method{
+				{Name: "CreateItem", In: in("CreateItemRequest"), Out: in("Item"), HTTP: &spec.HTTP{Path: "/catalog/items", Verb: 3}},
+				{Name: "GetItem", In: in("GetItemRequest"), Out: in("Item"), HTTP: &spec.HTTP{Path: "/catalog/{sku}", Verb: 1}},
+				{Name: "ListItems", In: in("ListItemsRequest"), Out: in("ListItemsResponse"), HTTP: &spec.HTTP{Path: "/categories/{category}/items", Verb: 1}},
+			}}}
+		}
+		return f
+	}
+	return []*spec.File{mk("twa", false), mk("twb", true)}
 }
